@@ -207,15 +207,16 @@ class WriteTool(BaseTool):
         if in_fence:
             protected.append((fence_start, len(content)))
 
-        # Find quoted strings: text between "" on a line (after ::)
-        quote_pattern = re.compile(r'"(?:[^"\\]|\\.)*"')
-        for m in quote_pattern.finditer(content):
-            protected.append((m.start(), m.end()))
-
-        # Find comments: // to end of line
-        comment_pattern = re.compile(r"//[^\n]*")
-        for m in comment_pattern.finditer(content):
-            protected.append((m.start(), m.end()))
+        # Find quoted strings ("..." after ::) and comments (// to end of line) in the text
+        # OUTSIDE literal zones only: a quote character or // inside a zone is content and must
+        # not pair with a quote further down the document. One left-to-right scan per segment,
+        # so that // inside a string and a quote inside a comment are read as the lexer reads them.
+        quoted_or_comment = re.compile(r'"(?:[^"\\]|\\.)*"|//[^\n]*')
+        segment_start = 0
+        for fence_range_start, fence_range_end in list(protected) + [(len(content), len(content))]:
+            for m in quoted_or_comment.finditer(content, segment_start, fence_range_start):
+                protected.append((m.start(), m.end()))
+            segment_start = fence_range_end
 
         # Sort protected ranges for efficient lookup
         protected.sort()
